@@ -314,3 +314,7 @@ Proof. reflexivity. Qed.
 Lemma body_Storage_LoadRuleGroups_ok : body_Storage_LoadRuleGroups =
   ["return _v0.LoadRangeByPrefix(ruleGroupPath+""/"", _v1)"].
 Proof. reflexivity. Qed.
+
+Lemma body_codec_DecodeBytes_ok : body_codec_DecodeBytes =
+  ["_v1 := make([]byte, 0, len(_v0))"; "for { if len(_v0) < encGroupSize+1 { return nil, nil, errors.New(""insufficient bytes to decode value"") } _v2 := _v0[:encGroupSize+1] _v3 := _v2[:encGroupSize] _v4 := _v2[encGroupSize] _v5 := encMarker - _v4 if _v5 > encGroupSize { return nil, nil, errors.Errorf(""invalid marker byte, group bytes %q"", _v2) } _v6 := encGroupSize - _v5 _v1 = append(_v1, _v3[:_v6]...) _v0 = _v0[encGroupSize+1:] if _v5 != 0 { var _v7 = encPad for _, _v8 := range _v3[_v6:] { if _v8 != _v7 { return nil, nil, errors.Errorf(""invalid padding byte, group bytes %q"", _v2) } } break } }"; "return _v0, _v1, nil"].
+Proof. reflexivity. Qed.
